@@ -67,7 +67,8 @@ type numField struct {
 }
 
 type gen struct {
-	rng *rand.Rand
+	rng  *rand.Rand
+	pool []string // when set, external addresses are mostly drawn from here (registered oracles of the keeper run)
 }
 
 var ethChains = []string{"eth", "bsc", "polygon", "avalanche", "arbitrum", "optimism", "layer2"}
@@ -85,7 +86,96 @@ func (g *gen) bytes(n int) []byte {
 	return b
 }
 
-func (g *gen) ext(chain string) string { return ct.ExternalAddrToStr(chain, g.bytes(20)) }
+func (g *gen) ext(chain string) string {
+	if len(g.pool) > 0 && g.rng.Intn(8) != 0 {
+		return hx.Pick(g.rng, g.pool)
+	}
+	return ct.ExternalAddrToStr(chain, g.bytes(20))
+}
+
+var targetPrefixes = []string{"px", "cosmos", "0x", "fx", "osmo", "PX", " ", "p x", ""}
+
+// target: the texts `SendToFxExecuted` interprets through fxtypes.ParseFxTarget (and near misses of them)
+func (g *gen) target() string {
+	n := fmt.Sprint(hx.Pick(g.rng, []uint64{0, 1, 7, 10, 99, 1<<64 - 1}))
+	if g.rng.Intn(12) == 0 {
+		n = hx.Pick(g.rng, []string{"00", "07", "18446744073709551616", "-1", "", "x"})
+	}
+	px := hx.Pick(g.rng, targetPrefixes)
+	switch g.rng.Intn(14) {
+	case 0:
+		return ""
+	case 1:
+		return fxtypes.ERC20Target
+	case 2:
+		return fxtypes.LegacyERC20Target
+	case 3:
+		return hx.Pick(g.rng, []string{fxtypes.GravityTarget, fxtypes.EthTarget, fxtypes.LegacyChainPrefix + fxtypes.GravityTarget, fxtypes.LegacyChainPrefix + "bsc", "bsc", "tron"})
+	case 4, 5:
+		return px + "/transfer/channel-" + n
+	case 6:
+		return fxtypes.IBCPrefix + n + "/" + px
+	case 7:
+		return fxtypes.IBCPrefix + px + "/transfer/channel-" + n
+	case 8:
+		return "channel-" + n + "/" + px
+	case 9:
+		return fxtypes.LegacyChainPrefix + px + "/transfer/channel-" + n
+	case 10:
+		return px + "/" + hx.Pick(g.rng, []string{"Transfer", "transfer ", "icahost", ""}) + "/channel-" + n
+	case 11:
+		return "transfer/channel-" + n
+	case 12:
+		return g.free()
+	default:
+		return string(g.bytes(1 + g.rng.Intn(12)))
+	}
+}
+
+func (g *gen) hexCase(s string) string {
+	switch g.rng.Intn(4) {
+	case 0:
+		return strings.ToUpper(s)
+	case 1:
+		b := []byte(s)
+		for i := range b {
+			if g.rng.Intn(2) == 0 {
+				b[i] = strings.ToUpper(string(b[i]))[0]
+			}
+		}
+		return string(b)
+	}
+	return s
+}
+
+// hexText: a hex-encoded text field (TargetIbc, ChannelIbc): mostly a structured target, sometimes arbitrary bytes
+func (g *gen) hexText() string {
+	if g.rng.Intn(5) == 0 {
+		return g.hexData()
+	}
+	return g.hexCase(hex.EncodeToString([]byte(g.target())))
+}
+
+func (g *gen) hexTextOther(old string) string {
+	for {
+		v := g.hexText()
+		if v != old {
+			return v
+		}
+	}
+}
+
+// memo: bridge-call memos are 32-byte words; MemoSendCallTo switches receiver and EVM caller
+func (g *gen) memo() string {
+	switch g.rng.Intn(4) {
+	case 0:
+		return g.hexCase(hex.EncodeToString(ct.MemoSendCallTo.Bytes()))
+	case 1:
+		return ""
+	default:
+		return g.hexData()
+	}
+}
 
 func (g *gen) bech() string {
 	n := 20
@@ -306,7 +396,7 @@ func kinds() []*kind {
 	stf := &kind{tag: "stf", name: "MsgSendToFxClaim",
 		base: func(g *gen, ch string) claim {
 			return &ct.MsgSendToFxClaim{EventNonce: g.u64(), BlockHeight: g.u64(), TokenContract: g.ext(ch), Amount: g.amount(),
-				Sender: g.ext(ch), Receiver: g.bech(), TargetIbc: g.hexData(), BridgerAddress: g.bech(), ChainName: ch}
+				Sender: g.ext(ch), Receiver: g.bech(), TargetIbc: g.hexText(), BridgerAddress: g.bech(), ChainName: ch}
 		},
 		clone: func(c claim) claim { cp := *c.(*ct.MsgSendToFxClaim); return &cp },
 		line: func(c claim) string {
@@ -338,7 +428,7 @@ func kinds() []*kind {
 			{"Amount", true, func(g *gen, c claim, ch string) { m := c.(*ct.MsgSendToFxClaim); m.Amount = g.amountOther(m.Amount) }},
 			{"Sender", true, func(g *gen, c claim, ch string) { m := c.(*ct.MsgSendToFxClaim); m.Sender = g.extOther(ch, m.Sender) }},
 			{"Receiver", true, func(g *gen, c claim, ch string) { m := c.(*ct.MsgSendToFxClaim); m.Receiver = g.bech() }},
-			{"TargetIbc", true, func(g *gen, c claim, ch string) { m := c.(*ct.MsgSendToFxClaim); m.TargetIbc = g.hexOther(m.TargetIbc) }},
+			{"TargetIbc", true, func(g *gen, c claim, ch string) { m := c.(*ct.MsgSendToFxClaim); m.TargetIbc = g.hexTextOther(m.TargetIbc) }},
 			{"BridgerAddress", false, func(g *gen, c claim, ch string) { m := c.(*ct.MsgSendToFxClaim); m.BridgerAddress = g.bech() }},
 		}}
 
@@ -349,7 +439,7 @@ func kinds() []*kind {
 				n = 8
 			}
 			m := &ct.MsgBridgeCallClaim{ChainName: ch, BridgerAddress: g.bech(), EventNonce: g.u64(), BlockHeight: g.u64(), Sender: g.ext(ch),
-				Refund: g.ext(ch), To: g.ext(ch), Data: g.hexData(), Value: g.amount(), Memo: g.hexData(), TxOrigin: g.ext(ch),
+				Refund: g.ext(ch), To: g.ext(ch), Data: g.hexData(), Value: g.amount(), Memo: g.memo(), TxOrigin: g.ext(ch),
 				TokenContracts: []string{}, Amounts: []sdkmath.Int{}}
 			for i := 0; i < n; i++ {
 				m.TokenContracts = append(m.TokenContracts, g.ext(ch))
@@ -511,7 +601,7 @@ func kinds() []*kind {
 	bt := &kind{tag: "bt", name: "MsgBridgeTokenClaim",
 		base: func(g *gen, ch string) claim {
 			m := &ct.MsgBridgeTokenClaim{EventNonce: g.u64(), BlockHeight: g.u64(), TokenContract: g.ext(ch), Name: g.free(), Symbol: g.free(),
-				Decimals: uint64(g.rng.Intn(40)), BridgerAddress: g.bech(), ChannelIbc: g.hexData(), ChainName: ch}
+				Decimals: uint64(g.rng.Intn(40)), BridgerAddress: g.bech(), ChannelIbc: g.hexText(), ChainName: ch}
 			if g.rng.Intn(4) == 0 {
 				m.Symbol = fxtypes.DefaultDenom
 				m.Decimals = 18
@@ -554,7 +644,7 @@ func kinds() []*kind {
 			}},
 			{"ChannelIbc", true, func(g *gen, c claim, ch string) {
 				m := c.(*ct.MsgBridgeTokenClaim)
-				m.ChannelIbc = g.hexOther(m.ChannelIbc)
+				m.ChannelIbc = g.hexTextOther(m.ChannelIbc)
 			}},
 			{"BridgerAddress", false, func(g *gen, c claim, ch string) { m := c.(*ct.MsgBridgeTokenClaim); m.BridgerAddress = g.bech() }},
 		}}
@@ -695,10 +785,20 @@ type seen struct {
 }
 
 type run struct {
-	out      *hx.Out
-	global   map[string]seen // real hash -> first valid claim with that hash
-	reported map[string]bool
-	nViol    map[string]int
+	out       *hx.Out
+	global    map[string]seen // real hash -> first valid claim with that hash
+	reported  map[string]bool
+	nViol     map[string]int
+	nVariants int
+	facts     map[string]factClaim
+	found     []collision // colliding pairs found by the pure search, replayed on the real keeper
+}
+
+// collision: two ValidateBasic-valid claims of one type with different effect and the same real ClaimHash
+type collision struct {
+	k    *kind
+	what string
+	a, b claim
 }
 
 // emit prints the claim and returns (hash, verdict, line)
@@ -743,17 +843,33 @@ func (r *run) pair(k *kind, what string, a, b claim) {
 
 // against emits b and compares it with the already emitted claim a
 func (r *run) against(k *kind, what string, a claim, ha, va, la string, b claim) {
-	lb := k.line(b) + " " + ckBit(k, b)
-	hb, vb := hashOf(b), verdict(b)
+	lb, hb, vb := r.monitor(k, what, a, ha, va, la, b)
+	r.record(k, b, hb, vb, lb)
+}
+
+// check compares b with the already emitted claim a on the real functions only (b is not sent through the model)
+func (r *run) check(k *kind, what string, a claim, ha, va, la string, b claim) {
+	r.monitor(k, what, a, ha, va, la, b)
+}
+
+// monitor: the property on the real functions — two valid claims with different executed effect must not share a hash
+func (r *run) monitor(k *kind, what string, a claim, ha, va, la string, b claim) (lb, hb, vb string) {
+	lb = k.line(b) + " " + ckBit(k, b)
+	hb, vb = hashOf(b), verdict(b)
+	r.out.Count("pair:" + va + "/" + vb)
 	if va == "ok" && vb == "ok" {
 		r.out.Nontrivial(k.tag + ":" + what)
 		if ha == hb && k.effect(a) != k.effect(b) {
 			r.reported[ha] = true
-			r.violate(fmt.Sprintf("%s: valid claims differing only in %s share a ClaimHash", k.name, what),
+			desc := fmt.Sprintf("%s: valid claims differing only in %s share a ClaimHash", k.name, what)
+			if r.nViol[desc] == 0 {
+				r.found = append(r.found, collision{k, what, k.clone(a), k.clone(b)})
+			}
+			r.violate(desc,
 				[]string{la, lb, "# both pass ValidateBasic; real ClaimHash of both = " + ha, fmt.Sprintf("# a = %+v", a), fmt.Sprintf("# b = %+v", b)})
 		}
 	}
-	r.record(k, b, hb, vb, lb)
+	return lb, hb, vb
 }
 
 // recorded witnesses (lean/FxVerif/Props/C03.lean `legacy_*_not_injective`) and fixed adversarial pairs
@@ -796,16 +912,16 @@ func TestC03(t *testing.T) {
 	out := hx.NewOut()
 	rng := rand.New(rand.NewSource(hx.Seed()))
 	g := &gen{rng: rng}
-	r := &run{out: out, global: map[string]seen{}, reported: map[string]bool{}, nViol: map[string]int{}}
+	r := &run{out: out, global: map[string]seen{}, reported: map[string]bool{}, nViol: map[string]int{}, facts: loadFacts()}
 	ks := kinds()
 	byTag := map[string]*kind{}
 	for _, k := range ks {
 		byTag[k.tag] = k
 	}
 	r.witnesses(byTag)
-	keeperScenarios(t, r, byTag)
+	r.targets(g)
 
-	nBase := hx.N(120, 1500) // base claims per type
+	nBase := hx.N(60, 800) // base claims per type
 	for _, k := range ks {
 		for i := 0; i < nBase; i++ {
 			out.Reset(k.tag)
@@ -824,16 +940,61 @@ func TestC03(t *testing.T) {
 			}
 			// adjacent-field re-splits and malformed variants
 			r.adversarial(g, k, base, ch)
+			r.formatResplit(g, k, base)
 			if i%4 == 0 {
 				r.resplit(g, k, base)
 			}
+			// spellings, normal forms, boundaries, orderings of every part of the claim
+			r.perturb(g, k, base, hb, vb, lb)
 		}
 	}
+	// the real keeper: fixed and generated disagreements, and every collision the search above found
+	keeperRun(t, r, g, byTag)
 	out.Stats.Extra["claim_types"] = len(ks)
-	out.Close("real ClaimHash == SHA-256(generated path) and real ValidateBasic verdict == model valid, per claim; " +
-		"monitor: no two ValidateBasic-valid claims with different effect-relevant fields share a real ClaimHash")
+	out.Stats.Extra["perturbation_variants"] = r.nVariants
+	out.Stats.Extra["collisions_found"] = len(r.found)
+	out.Close("real ClaimHash == SHA-256(generated path), real ValidateBasic verdict == model valid (regenerated validGen) and real " +
+		"ParseFxTarget == model, per line; real keeper attestation table == Lean attestation model per vote; " +
+		"monitors: no two ValidateBasic-valid claims with different effect-relevant fields share a real ClaimHash; on the real keeper the " +
+		"executed claim and the stored result agree field for field with every vote tallied in the observed attestation")
 	if len(out.Stats.Violations) > 0 {
 		t.Logf("monitor violations: %d", len(out.Stats.Violations))
+	}
+}
+
+// targets: fxtypes.ParseFxTarget(hexText, true) — the routing decision of SendToFxExecuted — against the Lean model
+func (r *run) targets(g *gen) {
+	r.out.Reset("targets")
+	seenT := map[string]bool{}
+	one := func(raw string) {
+		if seenT[raw] {
+			return
+		}
+		seenT[raw] = true
+		t := fxtypes.ParseFxTarget(raw, true)
+		kindS := "local"
+		if t.IsIBC() {
+			kindS = "ibc"
+		}
+		r.out.Count("target:" + kindS)
+		r.out.Emit("tgt "+hx.HexS(raw), fmt.Sprintf("%s %s %s %s %s %s", kindS, hx.HexS(t.GetTarget()), hx.HexS(t.Prefix), hx.HexS(t.SourcePort),
+			hx.HexS(t.SourceChannel), hx.HexS(t.String())))
+	}
+	for i := 0; i < hx.N(250, 3000); i++ {
+		txt := g.target()
+		raw := g.hexCase(hex.EncodeToString([]byte(txt)))
+		one(raw)
+		if i%3 == 0 {
+			for _, p := range textNormalForms(g, txt) {
+				one(hex.EncodeToString([]byte(p.val)))
+			}
+		}
+		if i%10 == 0 {
+			// not hex / odd length: ParseFxTarget ignores the decoding error and parses the decoded prefix
+			one(raw + "0")
+			one(raw + "zz")
+			one("0x" + raw)
+		}
 	}
 }
 
